@@ -104,6 +104,8 @@ class Ref:
         alg = d["suit-digest-algorithm-id"]
         code = self.code("SuitCoseHashAlg", alg)
         b = d.get("suit-digest-bytes", "")
+        if b is None:
+            raise NotInScope("digest bytes left without a value (the tool may refuse the placeholder)")
         if isinstance(b, dict):
             if "file" in b:
                 val = HASH[alg](self.file(b["file"]))
@@ -337,6 +339,13 @@ class Ref:
         e = desc["SUIT_Envelope_Tagged"]
         if "suit-delegation" in e:
             raise NotInScope("suit-delegation (F7a)")
+
+        def null_digest(o):
+            if isinstance(o, dict):
+                return ("suit-digest-bytes" in o and o["suit-digest-bytes"] is None) or any(null_digest(v) for v in o.values())
+            return isinstance(o, list) and any(null_digest(v) for v in o)
+        if depth == 0 and null_digest(desc):
+            raise NotInScope("digest bytes left without a value (the tool may refuse the placeholder)")
         severed_items = {}
         for k in SEVERABLE:
             if k in e:
